@@ -35,6 +35,11 @@ type Prog struct {
 	acc      *accessIndex
 	progWide map[*ssa.Function]bool
 	locks    *lockInfo
+
+	syncCallersCache map[*ssa.Function][]*ssa.Call
+	valueUsed        map[*ssa.Function]bool
+	roots            map[*ssa.Function]bool // activity roots (connection loop, frame executor, dispatcher, client call)
+	rootsAreExits    bool
 }
 
 func allFunctions(prog *ssa.Program) map[*ssa.Function]bool { return ssautil.AllFunctions(prog) }
